@@ -24,5 +24,18 @@ CHECKS = {
     },
 }
 
+CHECKS["C05"] = {
+    "level": "exploration",
+    "rule": "generated histories of 3-14 deploy / redeploy-with-other-bindings / remove commands over 4 service names and overlapping "
+            "host and prefix pools (default host, wildcards), optionally followed by 2-5 concurrent deploys of new services claiming "
+            "the same pairs; after every step the command result class, `list` and a 9x10 routing matrix are compared with the "
+            "reference model's ownership map. Non-trivial = history with >=1 rejected claim and >=1 pair that changed owner. "
+            "Distinct by plan hash.",
+    "layers": [L("TestVF_C05", 600, 8000)],
+    "technique": "stateful property-based testing (rapid): generated command histories against a reference ownership model; concurrent racing step",
+    "level_text": "Bounded random exploration of command histories with a model oracle after every step; the racing step is uncontrolled concurrency (real goroutines), so a check-then-install split is found by stress, not by construction.",
+    "level_note": "Trusts the harness world and the reference model; the race step depends on the Go scheduler.",
+}
+
 ALL_IDS = ["C%02d" % i for i in range(1, 21)]
 NOT_APPLICABLE = {pid: "check not built yet (work in progress; see DESIGN.md section 8 for the order of work)" for pid in ALL_IDS if pid not in CHECKS}
